@@ -441,6 +441,7 @@ def kf_sweep_wprintf_allocfail(case, o, kind, cfg, consts):
     # wide sprintf family, dmax >= 512, the probe allocation failing: crash, or -ESNOSPC without clearing / reporting (the C20 finding, seen from C01/C03/C04/C05)
     m = case.meta
     # (the probe runs whenever the first vswprintf fails: text too long, or an argument the C library cannot convert)
+    if case.func == 'vswprintf_s' and (o.fault != '-' or o.ret in ('FAULT', 'CRASH')): return False      # vswprintf_s checks its probe buffer: it does not crash
     return m.get('cls') == 'sweep-wfmt' and m.get('allocfail') and m['gd']['dmax'] >= 512 and o.alloc is not None and o.alloc[2] >= 1
 
 @known.pred
